@@ -283,6 +283,9 @@ def leftover_flush_continues(ck, P, R="CUT/leftover-flush-continues"):
 def run(ck):
     P = prog("K1")
     ck.configs.add("K1")
+    # a copy taken at a flush point continues the stream: the copied state is the source's (round 9)
+    from . import c14 as _c14s
+    _c14s.copy_identity(ck, P)
     flush_arms(ck, P)
     block_done_siblings(ck, P)
     leftover_flush_continues(ck, P)
